@@ -10,9 +10,39 @@ wt = '/tmp/wt-%s' % pid
 if not os.path.isdir(wt):
     subprocess.check_call(['git', '-C', '/repo', 'worktree', 'add', '-q', '--detach', wt, 'HEAD'])
 done = set()
+
+
+def _enclosing(path, line):
+    """qualified name of the function/class of /repo's file that contains `line` (hunk positions are those of the tree the seed was made on: close enough)"""
+    import ast
+    try:
+        tree = ast.parse(open(os.path.join('/repo', path)).read())
+    except (OSError, SyntaxError):
+        return None
+    best = None
+
+    def walk(node, prefix):
+        nonlocal best
+        for ch in ast.iter_child_nodes(node):
+            if isinstance(ch, (ast.FunctionDef, ast.AsyncFunctionDef, ast.ClassDef)):
+                if ch.lineno <= line <= (ch.end_lineno or ch.lineno):
+                    best = prefix + ch.name
+                    walk(ch, best + '.')
+    walk(tree, '')
+    return best
+
+
 for f in glob.glob(os.path.join(HERE, 'seeded', pid + '-*', 'patch.diff')):
-    for m in re.finditer(r'^@@.*@@\s*(?:def|class|cdef|static)?\s*([A-Za-z_][\w.]*)', open(f).read(), re.M):
-        done.add(m.group(1))
+    cur = None
+    for ln in open(f):
+        m = re.match(r'^\+\+\+ b/(\S+)', ln)
+        if m:
+            cur = m.group(1)
+        m = re.match(r'^@@ -(\d+),?(\d*) ', ln)
+        if m and cur:
+            q = _enclosing(cur, int(m.group(1)) + 3)
+            if q:
+                done.add(q)
 mech = '; '.join('%s (%s)' % (m['name'], m['where']) for m in p['anchors'].get('mechanism', []))
 print('''You are helping test a verification tool by producing ONE realistic regression ("seeded bug") in the DataStax Python driver for Cassandra.
 
@@ -28,4 +58,4 @@ Deliver in {wt}: (1) the change, applied and uncommitted; (2) demo.py - standalo
 
 Report in under 120 words: function changed, trigger, observed results.'''.format(
     wt=wt, pid=pid, title=p['title'], stmt=p['statement'], q=p['quantifier']['text'], files=', '.join(p['anchors']['files']), mech=mech,
-    avoid=(' Earlier seeded changes already touched: %s - change something else.' % ', '.join(sorted(done))) if done else ''))
+    avoid=(' Earlier seeded changes already touched: %s - change something else.' % ', '.join(sorted(done | set(sys.argv[2:])))) if (done or sys.argv[2:]) else ''))
